@@ -14,7 +14,7 @@
 #define ALN_STATUS_UNALIGNED 1   /* no gaps sequences may or may not have equal lengths  */
 #define ALN_STATUS_ALIGNED 2   /* sequences have equal lengths and may or may not contain gaps*/
 #define ALN_STATUS_FINAL 3   /* sequences have equal lengths and may or may not contain gaps*/
-#define ALN_STATUS_UNKNOWN 3     /* sequences have un-equal length and contain gaps  */
+#define ALN_STATUS_UNKNOWN 4     /* sequences have un-equal length and contain gaps  */
 
 #define ALN_BIOTYPE_PROTEIN 0
 #define ALN_BIOTYPE_DNA 1
